@@ -24,7 +24,10 @@ RULE = (
     "several widths/lengths incl. nested structs and struct arrays, or a class built from a drawn field list) and up to 10 "
     "distinct fields (reached through nested structs / struct-array elements) each assigned 1-3 times through the validated "
     "API, so the value is the result of a HISTORY of stores (longer string then shorter or '', different array contents, a "
-    "slice after whole-array stores, whole nested structs / struct-array elements replaced and sub-fields reassigned) - arrays in a drawn form: whole array, element by element, or slice by slice, falling back to elements when the "
+    "slice after whole-array stores, whole nested structs / struct-array elements replaced and sub-fields reassigned); in half of "
+    "the histories the conversions are also run at 1-2 drawn intermediate points ON THE SAME OBJECT(S) - one Message object for "
+    "the whole history, header fields changed and msg.data replaced before the last conversion - each result checked against "
+    "the object's current bytes - arrays in a drawn form: whole array, element by element, or slice by slice, falling back to elements when the "
     "whole/slice form is refused - with an in-domain value (extremes, -0.0, NaN, denormals, empty and maximum-length strings, control characters, "
     "quotes, all-0x00/0xFF byte arrays, full-length arrays); five independent campaigns check one route each: "
     "from_buffer_copy + copy (equal, storage-disjoint in both directions), from_dict(to_dict()), from_json(to_json(minify in "
@@ -75,6 +78,9 @@ def _locate(cls: type, off: int) -> str:
     return "padding"
 
 
+_EARLIER: list = []  # byte images the object under test had at earlier checkpoints of the current case
+
+
 def _same(route: str, what: str, cls: type, got, want: bytes, trace: dict):
     if not isinstance(got, cls) or type(got) is not cls:
         raise Violation(f"{route}/wrong-type", f"{what}: result is {type(got).__name__}, expected {cls.__name__}", trace)
@@ -82,6 +88,11 @@ def _same(route: str, what: str, cls: type, got, want: bytes, trace: dict):
     if g != want:
         off = next((i for i, (a, b) in enumerate(zip(g, want)) if a != b), min(len(g), len(want)))
         where = _locate(cls, off)
+        if any(g == e for e in _EARLIER):
+            # the result is the image of an EARLIER state of the same object: a conversion that was not redone
+            raise Violation(f"{route}/stale-result-of-earlier-state",
+                            f"{what}: returns the {cls.__name__} the object held at an earlier conversion, not its current value "
+                            f"(first difference at byte {off}, {where})", trace)
         if what.startswith("Message.from_json(...).data") and not any(g) and sum(1 for x in want if x) > 1:
             where = "whole-object-zero"  # the content was dropped as a whole, not one field mis-converted
         raise Violation(f"{route}/bytes-differ/{where}",
@@ -226,33 +237,37 @@ def _assign(c, fi: FI, v, how: str, res: Result, k=None):
     return stored
 
 
+def apply_set(m, s: dict, res: Result, marks: set, seen: dict):
+    """One validated store of the history."""
+    key = json.dumps([s["p"], s["f"]])
+    seen[key] = seen.get(key, 0) + 1
+    c, ccls, _off = msgs.walk(m, s["p"])
+    fi = msgs.field(ccls, s["f"])
+    v = dec(s["v"])
+    v = _assign(c, fi, v, s.get("how", "whole"), res, s.get("k"))
+    if v is None:
+        return
+    if seen[key] > 1:
+        res.count("history:reassigned:" + fi.kind)
+        marks.add(("reassigned", fi.kind))
+    if fi.kind in ("struct", "sarr"):
+        marks.add(("struct-assigned", fi.kind))
+        return
+    sp = _specials(fi, v)
+    if sp and any(len(p) == 2 for p in s["p"]):
+        sp.add("in-struct-array")
+    if any(len(p) == 2 for p in s["p"]) and bytes(c) != bytes(type(c)()):
+        marks.add(("in-struct-array", fi.kind))
+    for x in sp:
+        marks.add((x, fi.kind + (fi.code or "")))
+
+
 def build_instance(trace: dict, res: Result):
     cls = msgs.resolve(trace["cls"])
     m = cls()
-    marks = set()
-    seen = {}
+    marks, seen = set(), {}
     for s in trace["sets"]:
-        key = json.dumps([s["p"], s["f"]])
-        seen[key] = seen.get(key, 0) + 1
-        c, ccls, _off = msgs.walk(m, s["p"])
-        fi = msgs.field(ccls, s["f"])
-        v = dec(s["v"])
-        v = _assign(c, fi, v, s.get("how", "whole"), res, s.get("k"))
-        if v is None:
-            continue
-        if seen[key] > 1:
-            res.count("history:reassigned:" + fi.kind)
-            marks.add(("reassigned", fi.kind))
-        if fi.kind in ("struct", "sarr"):
-            marks.add(("struct-assigned", fi.kind))
-            continue
-        sp = _specials(fi, v)
-        if sp and any(len(p) == 2 for p in s["p"]):
-            sp.add("in-struct-array")
-        if any(len(p) == 2 for p in s["p"]) and bytes(c) != bytes(type(c)()):
-            marks.add(("in-struct-array", fi.kind))
-        for x in sp:
-            marks.add((x, fi.kind + (fi.code or "")))
+        apply_set(m, s, res, marks, seen)
     return cls, m, marks
 
 
@@ -272,13 +287,39 @@ def _set_header(trace: dict, cls: type, version: int):
 
 
 def run_case(trace: dict, res: Result):
+    """Apply the history; run the route's round-trip oracle at every checkpoint (after the stores whose index is in
+    trace["cp"]) and at the end - always on the SAME objects, against their CURRENT bytes."""
     route = trace["sub"]
-    cls, m, marks = build_instance(trace, res)
+    cls = msgs.resolve(trace["cls"])
+    m = cls()
+    marks, seen = set(), {}
+    st_ = {"h": None, "msg": None, "earlier_m": [], "earlier_h": []}
+    cps = set(trace.get("cp", []))
+    n_cp = 0
+    for i, s_ in enumerate(trace["sets"]):
+        apply_set(m, s_, res, marks, seen)
+        if i in cps and i != len(trace["sets"]) - 1:
+            check_route(trace, res, cls, m, marks, st_, final=False)
+            n_cp += 1
+    if n_cp:
+        res.count(f"{route}:conversions-repeated-after-mutation", n_cp)
+        marks.add(("reconverted-after-mutation", route))
+    del _EARLIER[:]
+    check_route(trace, res, cls, m, marks, st_, final=True)
+
+
+def check_route(trace: dict, res: Result, cls: type, m, marks: set, st_: dict, final: bool):
+    route = trace["sub"]
     b = bytes(m)
     name = cls.__name__
-    res.count(f"{route}:class:{msgs.ref_class_kind(trace['cls'])}")
-    if "core" in trace["cls"]:
-        res.count("core:" + trace["cls"]["core"])
+    _EARLIER[:] = [e for e in st_["earlier_m"] if e != b]
+    st_["earlier_m"].append(b)
+    if not final:
+        res.count(f"{route}:checkpoint")
+    if final:
+        res.count(f"{route}:class:{msgs.ref_class_kind(trace['cls'])}")
+        if "core" in trace["cls"]:
+            res.count("core:" + trace["cls"]["core"])
     if route == "buffer-copy":
         m2 = _call(route, "from_buffer_copy(bytes)", trace, cls.from_buffer_copy, b)
         _same(route, f"{name}.from_buffer_copy(bytes(m))", cls, m2, b, trace)
@@ -313,8 +354,21 @@ def run_case(trace: dict, res: Result):
         if not issubclass(cls, MessageData):
             raise HarnessError("message route needs a MessageData class")
         good = cls.type_hash if trace["ver"] else 0
-        h = _set_header(trace, cls, good)
+        if st_["msg"] is None:
+            st_["h"] = _set_header(trace, cls, good)
+            st_["msg"] = Message(st_["h"], m)  # ONE Message object for the whole history
+        h, msg = st_["h"], st_["msg"]
+        if final:
+            for name_, v in trace.get("hmut", {}).items():  # header fields changed after the earlier conversions
+                if name_ not in ("msg_type", "reserved"):
+                    setattr(h, name_, dec(v))
+            if trace.get("swap"):  # msg.data replaced by an equal object
+                msg.data = cls.from_buffer_copy(m)
+                m = msg.data
         hb = bytes(h)
+        keep_m = list(_EARLIER)
+        _EARLIER[:] = [e for e in st_["earlier_h"] if e != hb]
+        st_["earlier_h"].append(hb)
         hcls = type(h)
         hname = hcls.__name__
         res.count("message:header:" + hname)
@@ -329,19 +383,23 @@ def run_case(trace: dict, res: Result):
         hc = _call(route, f"{hname}.copy(h)", trace, hcls.copy, h)
         _same(route, f"{hname}.copy(h)", hcls, hc, hb, trace)
         _disjoint(route, f"{hname}.copy(h)", h, hc, trace)
-        msg = Message(h, m)
         for mini in (False, True):
             s = _call(route, f"Message.to_json(minify={mini})", trace, msg.to_json, minify=mini)
             r = _call(route, f"Message.from_json(version={'hash' if trace['ver'] else 0})", trace, Message.from_json, s)
             _same(route, f"Message.from_json(...).header [{hname}]", hcls, r.header, hb, trace)
+            _EARLIER[:] = keep_m
             _same(route, "Message.from_json(...).data", cls, r.data, b, trace)
+            _EARLIER[:] = [e for e in st_["earlier_h"] if e != hb]
             if not (r == msg):
                 raise Violation(f"{route}/eq-false", f"{name}: Message round trip equal bytes but == is False", trace)
         d = _call(route, "Message.to_dict()", trace, msg.to_dict)
         _same(route, f"{hname}.from_dict(Message.to_dict()['header'])", hcls,
               _call(route, f"{hname}.from_dict", trace, hcls.from_dict, d["header"]), hb, trace)
+        _EARLIER[:] = keep_m
         _same(route, "cls.from_dict(Message.to_dict()['data'])", cls,
               _call(route, "from_dict(Message.to_dict()['data'])", trace, cls.from_dict, d["data"]), b, trace)
+        if not final:
+            return
         # foreign version hash
         bad = trace["badver"]
         if bad in (0, cls.type_hash):
@@ -373,6 +431,8 @@ def run_case(trace: dict, res: Result):
             raise Violation(f"{route}/source-modified", f"{name}: the round trips modified the source message", trace)
     else:
         raise HarnessError(route)
+    if not final:
+        return
     if route == "message" and trace.get("tc"):
         marks = set(marks) | {("timecode-header", "hdr")}
     if route == "message":
@@ -500,9 +560,17 @@ def case(draw, route: str):
             seen.add(key)
             sets.extend(draw(_history(path, fi)))
     t = {"sub": route, "cls": ref, "sets": sets}
+    if len(sets) > 1 and draw(st.booleans()):
+        # conversions repeated on the same object(s) with stores in between
+        t["cp"] = sorted(set(draw(st.lists(st.integers(0, len(sets) - 2), min_size=1, max_size=2))))
     if route == "message":
+        if t.get("cp"):
+            t["swap"] = draw(st.integers(0, 3)) == 0
         t["tc"] = draw(st.booleans())
         t["hdr"] = draw(_header(ctypes.sizeof(cls), t["tc"]))
+        if t.get("cp") and draw(st.booleans()):
+            hm = draw(_header(ctypes.sizeof(cls), t["tc"]))
+            t["hmut"] = {k: v for k, v in list(hm.items())[: draw(st.integers(1, 3))]}
         t["ver"] = draw(st.booleans())
         t["badver"] = draw(st.one_of(st.sampled_from([1, 2 ** 32 - 1, 2 ** 31]), st.integers(1, 2 ** 32 - 1)))
     return t
